@@ -193,6 +193,10 @@ package jxpath
 //@ func formatIntegerComponent
 //@   props C19 C09
 //@   requires marker != nil
+//@   ensures [C19:ordinal-modifier-appends-the-suffix-of-the-number] (r1 == nil && marker.modifier == modOrdinal) ==> calls("ordinalSuffix#0") == 1
+//@   ensures [C19:no-suffix-without-the-ordinal-modifier] marker.modifier != modOrdinal ==> calls("ordinalSuffix#0") == 0
+//@   atcall[C19:the-number-in-the-marker's-layout] formatInteger#0 requires callee_n == n && same(callee_layout, marker.format)
+//@   atcall[C19:suffix-of-the-same-number] ordinalSuffix#0 requires callee_n == n
 //@   assigns nothing
 //@ func formatYear
 //@   props C19 C09
@@ -332,9 +336,13 @@ package jxpath
 //@ func parseWidthModifier
 //@   props C09 C19
 //@   ensures r2 == nil ==> (0 <= r0 && 0 <= r1)
+//@   ensures [C19:maximum-width-not-below-the-minimum] r2 == nil ==> (r1 == 0 || r1 >= r0)
+//@   ensures [C19:a-star-maximum-is-unbounded-not-too-small] (calls("parseWidth#2") == 1 && ret("parseWidth#1", 1) == nil && ret("parseWidth#2", 1) == nil && ret("parseWidth#2", 0) == 0) ==> (r2 == nil && r0 == ret("parseWidth#1", 0) && r1 == 0)
 //@ func parseWidth
 //@   props C09 C19
 //@   ensures r1 == nil ==> 0 <= r0
+//@   ensures [C19:star-is-no-width] (len(s) == 1 && s[0] == 42) ==> (r0 == 0 && r1 == nil)
+//@   ensures [C19:a-width-is-at-least-1] (r1 == nil && !(len(s) == 1 && s[0] == 42)) ==> r0 >= 1
 // Each picture component shows the corresponding field of the instant: the component letter selects exactly one
 // formatter (call counters), and each numeric formatter hands the field package time reports for that instant to the
 // integer formatting with the marker's own layout.
